@@ -53,7 +53,8 @@ TooDeep(t) == (\E p \in DOMAIN t : Len(p) > MaxDepth) \/ Cardinality(DOMAIN t) >
 
 Init == tree = (Root :> Coll) /\ last = [ok |-> TRUE, st |-> {0}, m |-> "", cond |-> TRUE]
 \* C02: PUT whose body breaks off (the offset and the failure mode are concretisation dimensions of the recorder)
-FaultReqs == {[Base("PUT", p) EXCEPT !.c = c, !.fault = TRUE] : p \in ReqPaths, c \in Contents \cup {"B70000"}}
+\* (also under If-None-Match: * -- "create only": the clean-up after the failure must not be subject to the request's own condition)
+FaultReqs == {[Base("PUT", p) EXCEPT !.c = c, !.fault = TRUE, !.ifnm = h] : p \in ReqPaths, c \in Contents \cup {"B70000"}, h \in {"unset", "star"}}
 \* C04: the conditional-header truth table
 CondClasses == {"unset", "star", "cur", "stale", "other", "bad"}
 CondReqs == {[Base(m, p) EXCEPT !.c = (IF m = "PUT" THEN (CHOOSE c \in Contents : TRUE) ELSE ""), !.ifm = a, !.ifnm = b] :
